@@ -1,5 +1,11 @@
 //! The simulation harness (everything under `h` is verification machinery; everything else in this
 //! crate is the server's own source, symlinked from /repo/lsp4spl/src).
 pub mod client;
+pub mod core;
+pub mod driver;
+pub mod gen;
+pub mod minimize;
+pub mod props;
 pub mod runner;
 pub mod scenario;
+pub mod session;
